@@ -263,19 +263,14 @@ impl DecoderInstruction {
 }
 
 #[derive(Debug, PartialEq)]
-pub struct InsertCountIncrement(pub u8);
+pub struct InsertCountIncrement(pub u64);
 
 impl InsertCountIncrement {
     pub fn decode<R: Buf>(buf: &mut R) -> Result<Option<Self>, ParseError> {
         let insert_count = match prefix_int::decode(6, buf) {
-            Ok((0b00, x)) => {
-                if x > 64 {
-                    return Err(ParseError::Integer(
-                        crate::qpack::prefix_int::Error::Overflow,
-                    ));
-                }
-                x as u8
-            }
+            // The increment is a prefixed integer like every other one, it is not limited to
+            // the values which fit into the 6 bits of the first byte
+            Ok((0b00, x)) => x,
             Ok((f, _)) => return Err(ParseError::InvalidPrefix(f)),
             Err(IntError::UnexpectedEnd) => return Ok(None),
             Err(e) => return Err(e.into()),
@@ -284,7 +279,7 @@ impl InsertCountIncrement {
     }
 
     pub fn encode<W: BufMut>(&self, buf: &mut W) {
-        prefix_int::encode(6, 0b00, self.0 as u64, buf);
+        prefix_int::encode(6, 0b00, self.0, buf);
     }
 }
 
